@@ -286,7 +286,7 @@ func (w *Writer) AddStream(s *streams.Stream, streamID uint64) (bool, error) {
 	for pIndex, p := range s.Packets {
 		dir := s.PacketDirections[pIndex]
 		pmds := pcapmetadata.AllFromPacketMetadata(&p)
-		for _, pmd := range pmds {
+		for pmdIndex, pmd := range pmds {
 			flags := uint8(flagsPacketHasNext)
 			switch dir {
 			case reassembly.TCPDirClientToServer:
@@ -294,8 +294,9 @@ func (w *Writer) AddStream(s *streams.Stream, streamID uint64) (bool, error) {
 			case reassembly.TCPDirServerToClient:
 				flags |= flagsPacketDirectionServerToClient
 			}
+			// a packet assembled from several source packets has its data once, not once per source packet
 			dataSize := uint64(0)
-			if dIndex, ok := packetToData[uint64(pIndex)]; ok {
+			if dIndex, ok := packetToData[uint64(pIndex)]; ok && pmdIndex == 0 {
 				dataSize = uint64(len(s.Data[dIndex].Bytes))
 			}
 			for {
